@@ -175,10 +175,11 @@ CLAIMS["C07"] = dict(
 
 CLAIMS["C04"] = dict(
     level="other",
-    technique="static analysis: use-after-release rule over the CFG of every member function of the self-deleting job classes (release points: substep_notify_done, delete this, own phase-counter decrement, unheld enqueue), add-before-enqueue adjacency, atomic RMW result/order rules, dominance rules for phase arming and completion barrier, must-pass-through for copy_back",
+    technique="static analysis: use-after-release rule over the CFG of every member function of the self-deleting job classes (release points: substep_notify_done, delete this, own phase-counter decrement, unheld enqueue), add-before-enqueue adjacency, atomic RMW result/order rules, dominance rules for phase arming and completion barrier, must-pass-through for copy_back, writer/reader mask agreement for the packed LCP byte, may-invalidate call summaries for cached buffer pointers",
     text=("USE-AFTER-RELEASE over all member functions of PS5SmallsortJob / PS5BigSortStep / PS5SortStep in all instantiations (found and fixed two heap-use-after-free defects: "
           "distribute_finished touching bkt_ after the final notify; sample()/count_finished() re-reading parts_ after the last enqueue), ADD-BEFORE-ENQUEUE, HANDLE-PAIR, "
-          "RMW-RESULT (incl. memory order), PHASE-ARM, COMPLETION-BARRIER, COPY-BACK. Memory-safety and hand-over conditions for every schedule and every tuning of the thresholds."),
+          "RMW-RESULT (incl. memory order), PHASE-ARM, COMPLETION-BARRIER, COPY-BACK, PACKED-LCP-MASK (every read of the packed splitter_lcp byte uses the builder's masks), "
+          "STALE-DATA-POINTER (a local caching member.data() is not used after a call that may re-allocate the member; found and fixed a third heap-use-after-free in sort_sample_sort). Memory-safety and hand-over conditions for every schedule and every tuning of the thresholds."),
     note=(TRUST + "Frozen table: functions running under run()'s anonymous handle. Not decided: sortedness and LCP values, full data-race freedom of the bucket arrays, termination; the ThreadPool is C10."),
 )
 
